@@ -281,3 +281,108 @@ func applyAndPrint(fset *token.FileSet, ns []ast.Node, m mutation) (txt string, 
 	}
 	return s, true
 }
+
+// MetaHole is a construct in which one sub-expression has been replaced by the
+// expression metavariable qx, or one identifier by the identifier metavariable qn.
+type MetaHole struct {
+	What   string // which node.field became the hole
+	Src    string // pattern text
+	MvKind string // "expression" | "identifier"
+	MvName string
+}
+
+var exprT = reflect.TypeOf((*ast.Expr)(nil)).Elem()
+
+// collectHoles lists every slot of static type ast.Expr (hole for an expression
+// metavariable) and every *ast.Ident (hole for an identifier metavariable).
+func collectHoles(ns []ast.Node) []mutation {
+	var ms []mutation
+	var walk func(v reflect.Value, path string)
+	hole := func(fv reflect.Value, p string) {
+		switch {
+		case fv.Type() == exprT && !fv.IsNil():
+			ms = append(ms, mutation{p + ":expr-hole", func() { fv.Set(reflect.ValueOf(ast.Expr(&ast.Ident{Name: "qx", NamePos: fv.Interface().(ast.Node).Pos()}))) }})
+			if id, ok := fv.Interface().(*ast.Ident); ok && id.Name != "_" {
+				ms = append(ms, mutation{p + ":ident-hole", func() { id.Name = "qn" }})
+			}
+		case fv.Type() == identT && !fv.IsNil():
+			id := fv.Interface().(*ast.Ident)
+			if id.Name != "_" {
+				ms = append(ms, mutation{p + ":ident-hole", func() { id.Name = "qn" }})
+			}
+		}
+	}
+	walk = func(v reflect.Value, path string) {
+		switch v.Kind() {
+		case reflect.Interface:
+			if !v.IsNil() {
+				walk(v.Elem(), path)
+			}
+		case reflect.Ptr:
+			if v.IsNil() || v.Type() == cgT || v.Type() == objT {
+				return
+			}
+			walk(v.Elem(), path)
+		case reflect.Struct:
+			t := v.Type()
+			for i := 0; i < t.NumField(); i++ {
+				f := t.Field(i)
+				fv := v.Field(i)
+				p := path + "/" + t.Name() + "." + f.Name
+				switch {
+				case f.Type == cgT || f.Type == objT:
+				case f.Type.Kind() == reflect.Slice:
+					for j := 0; j < fv.Len(); j++ {
+						hole(fv.Index(j), fmt.Sprintf("%s[%d]", p, j))
+						walk(fv.Index(j), fmt.Sprintf("%s[%d]", p, j))
+					}
+				case f.Type.Kind() == reflect.Ptr || f.Type.Kind() == reflect.Interface:
+					if !fv.IsNil() {
+						hole(fv, p)
+						walk(fv, p)
+					}
+				}
+			}
+		}
+	}
+	for i, n := range ns {
+		walk(reflect.ValueOf(n), fmt.Sprintf("#%d", i))
+	}
+	return ms
+}
+
+// MetaHoles returns the construct with each single sub-expression / identifier
+// replaced by a metavariable (those that still print and re-parse as the same kind).
+func MetaHoles(kind, src string) []MetaHole {
+	_, ns, err := ParseConstruct(kind, src)
+	if err != nil {
+		panic(fmt.Sprintf("harness: construct does not parse: %v\n%s", err, src))
+	}
+	n := len(collectHoles(ns))
+	var out []MetaHole
+	seen := map[string]bool{}
+	for i := 0; i < n; i++ {
+		fset, ns, _ := ParseConstruct(kind, src)
+		ms := collectHoles(ns)
+		if len(ms) != n {
+			panic("harness: hole points are not stable")
+		}
+		txt, ok := applyAndPrint(fset, ns, ms[i])
+		if !ok {
+			continue
+		}
+		if _, _, err := ParseConstruct(kind, txt); err != nil {
+			continue
+		}
+		h := MetaHole{What: ms[i].what, Src: txt, MvKind: "expression", MvName: "qx"}
+		if strings.HasSuffix(ms[i].what, ":ident-hole") {
+			h.MvKind, h.MvName = "identifier", "qn"
+		}
+		if seen[h.MvKind+txt] {
+			continue
+		}
+		seen[h.MvKind+txt] = true
+		out = append(out, h)
+	}
+	return out
+}
